@@ -208,10 +208,12 @@ def _energy_difference(imf, residue):
     https://doi.org/10.1016/j.ymssp.2007.11.028
 
     """
+    # A component without any energy is -inf dB. (np.log10(..., where=...) without
+    # an `out` array leaves the result uninitialised where the condition is False)
     sumsqr = np.sum(imf**2)
-    imf_energy = 20 * np.log10(sumsqr, where=sumsqr > 0)
+    imf_energy = 20 * np.log10(sumsqr) if sumsqr > 0 else -np.inf
     sumsqr = np.sum(residue ** 2)
-    resid_energy = 20 * np.log10(sumsqr, where=sumsqr > 0)
+    resid_energy = 20 * np.log10(sumsqr) if sumsqr > 0 else -np.inf
     return imf_energy-resid_energy
 
 
